@@ -641,6 +641,80 @@ REAL = [
 ]
 
 
+def stage_command_line(ctx):
+    """login options -> ssh command line (pxssh.py:314-389), judged on the shell tokens: every requested option is there,
+    with its value next to it, nothing that was not requested, the server last"""
+    import shlex, itertools, tempfile
+    rng = ctx.rng
+    keyfile = tempfile.NamedTemporaryFile(prefix='verif_key_', delete=False); keyfile.close()
+    cfgfile = tempfile.NamedTemporaryFile(prefix='verif_cfg_', delete=False, mode='w'); cfgfile.write('Host srv\n  User bob\n'); cfgfile.close()
+    n = 0
+    try:
+        for it in range(120 if ctx.quick() else 1500):
+            quiet = rng.random() < 0.5
+            port = rng.choice([None, None, 22, 2222])
+            key = rng.choice([None, None, True, keyfile.name, '/nonexistent/key'])
+            cli = rng.random() < 0.7
+            tunnels = rng.choice([{}, {}, {'local': ['2424:localhost:22']}, {'remote': ['2525:h:22'], 'dynamic': [8888]}])
+            options = rng.choice([{}, {}, {'StrictHostKeyChecking': 'no'}, {'UserKnownHostsFile': '/dev/null', 'A': 'b'}])
+            user = rng.choice(['alice', 'alice', None])
+            cfg = rng.choice([None, None, cfgfile.name, '/nonexistent/cfg'])
+            p = PX.pxssh(debug_command_string=True, options=options)
+            kw = dict(quiet=quiet, port=port, ssh_key=key, check_local_ip=cli, ssh_tunnels=tunnels, ssh_config=cfg)
+            try:
+                cmd = p.login('srv', user, 'pw', **kw)
+                res = 'cmd'
+            except PX.ExceptionPxssh:
+                res = 'pxssh'
+            except TypeError:
+                res = 'TypeError'
+            except Exception as e:  # noqa
+                res = 'EXC:' + type(e).__name__
+            n += 1
+            # expected class of outcome
+            if cfg == '/nonexistent/cfg' or key == '/nonexistent/key':
+                want = 'pxssh'
+                # the config test comes first in the source; either way an ExceptionPxssh
+            elif user is None and cfg is None:
+                want = 'TypeError'
+            else:
+                want = 'cmd'
+            bad = None
+            if res != want:
+                bad = 'outcome %s, expected %s' % (res, want)
+            elif res == 'cmd':
+                toks = shlex.split(cmd)
+                exp = ['ssh']
+                for k, v in options.items():
+                    exp += ['-o', '%s=%s' % (k, v)]
+                if quiet:
+                    exp.append('-q')
+                if not cli:
+                    exp.append('-oNoHostAuthenticationForLocalhost=yes')
+                if cfg:
+                    exp += ['-F', cfg]
+                if port is not None:
+                    exp += ['-p', str(port)]
+                if key is True:
+                    exp.append('-A')
+                elif key:
+                    exp += ['-i', key]
+                for ttype, flag in (('local', '-L'), ('remote', '-R'), ('dynamic', '-D')):
+                    for t in tunnels.get(ttype, []):
+                        exp += [flag, str(t)]
+                if user is not None:
+                    exp += ['-l', user]
+                exp.append('srv')
+                if toks != exp:
+                    bad = 'command line %r, expected the tokens %r' % (cmd, exp)
+            if bad:
+                common.report(ctx, 'login/command-line', 'login(%r) -> %s' % (kw, bad), dict(kind='cmdline', kw={k: repr(v) for k, v in kw.items()}, user=user, options=options))
+                break
+    finally:
+        os.unlink(keyfile.name); os.unlink(cfgfile.name)
+    ctx.cov['command_lines_checked'] = n
+
+
 # ------------------------------------------------------------------------------------------------- driver
 
 def evaluate(case):
@@ -734,6 +808,7 @@ def run(ctx):
                 break
     except common.ModelUnavailable:
         pass
+    stage_command_line(ctx)
     # real processes
     with multiprocessing.Pool(5) as pool:
         routs = pool.map(real_case, [(c, ctx.tmp, n) for n, (c, _) in enumerate(REAL)])
